@@ -5,6 +5,8 @@ Monitors:
   independent  format(F + B) == F' + format(B) for every option set
   unclosed     a document whose opening '---' is never closed comes back unchanged apart from one final
                newline, and formatting it again changes nothing
+  cli          a sample of the same documents through flowmark.cli.main from a file and from stdin: both outputs start with the
+               frontmatter and are equal
   split        icontract-style post-condition on the public split_frontmatter(): the two parts reconstruct
                the text and a line ends only at LF / CRLF (evaluated on every direct call)
 """
@@ -34,7 +36,8 @@ class C07(Prop):
     assumptions = ["the document starts with the '---' line (no blank lines before it) and the body does not itself start "
                    "with a '---' line"]
     deciding = {"exact": {"quick": 2000, "thorough": 20000}, "independent": {"quick": 2000, "thorough": 20000},
-                "unclosed": {"quick": 300, "thorough": 3000}, "split": {"quick": 2000, "thorough": 20000}}
+                "unclosed": {"quick": 300, "thorough": 3000}, "split": {"quick": 2000, "thorough": 20000},
+                "cli": {"quick": 200, "thorough": 2000}}
 
     def cases(self, tier, seed, shard, nshards):
         r = shard_rng(seed, self.id, shard)
@@ -55,9 +58,13 @@ class C07(Prop):
             case = {"kind": "closed", "lines": lines, "nl": nl, "opening": opening, "closing": closing, "odd": repr(odd),
                     "body": body, "body_seed": r.getrandbits(40), "body_profile": r.choice(["core", "tags", "tags", "typo"]), "gap": r.choice(["", "\n", "\n\n"]),
                     "opts": [rand_opts(r, widths=[0, 20, 88]), rand_opts(r)]}
+            if r.random() < 0.1:
+                case["cli"] = True  # the same document through the command line, from a file and from stdin
             yield case
             if r.random() < 0.25:
                 yield dict(case, kind="unclosed", final_nl=r.random() < 0.5)
+        if shard == 0:
+            yield {"kind": "deepbody"}
 
     def setup_worker(self, col, tier):
         self.split = None
@@ -68,12 +75,18 @@ class C07(Prop):
             col.note(f"split monitor off: {e}")
 
     def check(self, case, col: Collector):
+        if case["kind"] == "deepbody":
+            return self._deepbody(case, col)
         nl = case["nl"]
         lines = case["lines"]
         F = case["opening"] + nl + "".join(ln + nl for ln in lines) + case["closing"] + nl
         Fn = F.replace("\r\n", "\n")
         if case["kind"] == "unclosed":
             return self._unclosed(case, col)
+        if case.get("cli") and "\r" not in "".join(lines) :
+            o_cli = dict(case["opts"][0], plaintext=False)
+            body_ = case["body"] if case["body"] is not None else gen_doc(case["body_seed"], case.get("body_profile", "core"), nblocks=(1, 3)).text
+            self._cli(case, F + (case["gap"] + body_).replace("\n", nl), Fn, o_cli, col)
         body = case["body"] if case["body"] is not None else \
             gen_doc(case["body_seed"], case.get("body_profile", "core"), nblocks=(1, 3)).text
         B = case["gap"] + body
@@ -119,6 +132,63 @@ class C07(Prop):
                 d = first_line_diff(Fn + alone, out)
                 col.violation("independent", "C07/body-formatted-differently-with-frontmatter", sub,
                               {"line": d[0], "alone": d[1], "with_frontmatter": d[2]})
+
+    def _deepbody(self, case, col):
+        """A body nested deeper than the interpreter can recurse: whatever the formatter does about it (today: it raises),
+        it must not hand back the document without its frontmatter."""
+        F = "---\ntitle: Deep\nnote: 'kept'\n---\n"
+        for name, body in (("list-250", "".join("  " * i + "- x\n" for i in range(250))), ("list-60", "".join("  " * i + "- x\n" for i in range(60)))):
+            col.case()
+            col.mon("exact")
+            out = fm.fmt(F + body, width=88)
+            col.count("deep_body_raised" if isinstance(out, fm.Raised) else "deep_body_formatted")
+            if isinstance(out, str) and not out.startswith(F):
+                col.violation("exact", "C07/frontmatter-not-verbatim/deeply-nested-body", dict(case, body=name), {"output_head": out[:80]})
+
+    def _cli(self, case, text, Fn, o, col):
+        import contextlib
+        import io
+        import os
+        import sys
+        import tempfile
+
+        from flowmark import cli
+        argv = ["-w", str(o["width"]), "--list-spacing", o["list_spacing"]] + ["--" + k for k in ("semantic", "cleanups", "smartquotes", "ellipses") if o.get(k)]
+        d = tempfile.mkdtemp(prefix="vf-c07-")
+        try:
+            path = os.path.join(d, "doc.md")
+            with open(path, "wb") as f:
+                f.write(text.encode("utf-8", "surrogatepass"))
+            results = {}
+            for via in ("file", "stdin"):
+                out = io.StringIO()
+                old_stdin = sys.stdin
+                try:
+                    if via == "stdin":
+                        sys.stdin = io.StringIO(text)
+                    with contextlib.redirect_stdout(out), contextlib.redirect_stderr(io.StringIO()):
+                        try:
+                            rc = cli.main(argv + ([path] if via == "file" else ["-"]))
+                        except SystemExit as e:
+                            rc = e.code
+                finally:
+                    sys.stdin = old_stdin
+                col.case()
+                col.mon("cli")
+                if rc != 0:
+                    col.count("cli_nonzero_exit_left_to_C12")
+                    continue
+                results[via] = out.getvalue()
+                if not results[via].startswith(Fn):
+                    dd = first_line_diff(Fn, results[via][:len(Fn) + 40])
+                    col.violation("cli", f"C07/cli-{via}/frontmatter-not-verbatim" + self.oddtag(case), dict(case, opts=[o]),
+                                  {"line": dd[0] if dd else None, "want": dd[1] if dd else None, "got": dd[2] if dd else None})
+            if len(results) == 2 and results["file"] != results["stdin"]:
+                dd = first_line_diff(results["file"], results["stdin"])
+                col.violation("cli", "C07/cli-stdin-differs-from-file" + self.oddtag(case), dict(case, opts=[o]), {"line": dd[0], "file": dd[1], "stdin": dd[2]})
+        finally:
+            import shutil
+            shutil.rmtree(d, ignore_errors=True)
 
     @staticmethod
     def oddtag(case) -> str:
